@@ -108,6 +108,23 @@ UNITS.append(dict(
                  '__CPROVER_loop_invariant(1 <= i && i <= 101 && g_iters == i - 1 && SAMEL(temperature, g_expect))\n'
                  '__CPROVER_decreases(101 - i)')}))
 
+
+# plate model of the subducting plate (McKenzie 1970)
+UNITS.append(dict(
+    name='subducting_plate_T_plate_model', enforce='SPM', contracts='c05_slab_plate_model.c', harness='h_slab_plate_model',
+    targets=[dict(tu='source/world_builder/features/subducting_plate_models/temperature/plate_model.cc',
+                  qual='WorldBuilder::Features::SubductingPlateModels::Temperature::PlateModel::get_temperature', cname='SPM')],
+    outline_fp='all', defines={'WB_VEC_CAP': 2}, expect_fail=['REACHABILITY-GUARD'],
+    inserts=[(r'int i = 1;', 'SPM_INIT'),
+             (r'sum = E_h[0-9a-f]+\(sum, ', 'SPM_STEP'),
+             (r'double temperature = E_mul_a_add_a_mul_mul_', 'SPM_FINAL')],
+    canaries=[(r'\(i <= n_sum\)', '(i < n_sum)', 'last term of the series dropped'),
+              (r'wb_pow\(\(\(-0x1\.0000000000000p\+0\)\), i\)', 'wb_pow(((-0x1.0000000000000p+0)), i + 1)', 'alternating sign shifted by one term')],
+    loops={('SPM', 1): dict(
+        contract='__CPROVER_assigns(i, sum, g_di, g_ii, g_pw, g_expect, g_iters)\n'
+                 '__CPROVER_loop_invariant(1 <= i && i <= 501 && g_iters == i - 1 && SAMEL(sum, g_expect))\n'
+                 '__CPROVER_decreases(501 - i)')}))
+
 # ----------------------------------------------------------------------------- native replay oracle
 import math, random, json
 sys.path.insert(0, os.path.join(os.path.dirname(os.path.abspath(__file__)), '..', 'lib'))
